@@ -284,6 +284,33 @@ theorem C19_greedy (width : Int) (indent s l l' : Str) (rest : List Str)
   · rw [iterLines_short hl] at h
     split at h <;> simp at h
 
+theorem C19_greedy_nonvacuous :
+    iterLines 11 "  ".toList "01234 6789 12345".toList
+      = "01234 6789".toList :: "  12345".toList :: [] ∧
+    WsAt "01234 6789 12345".toList 10 := by
+  exact ⟨by decide +kernel, ' ', by decide, by decide⟩
+
+/-- Breaks only happen at legal positions: every line that is followed by another line is
+longer than the indent (the break position lies strictly behind the indent region), so the
+loop of `iter_lines` makes progress – the fact termination rests on. -/
+theorem C19_legal_break (width : Int) (indent s : Str) :
+    ∀ l ∈ (iterLines width indent s).dropLast, indent.length < l.length := by
+  refine iterLines_induct (w := width) (ind := indent)
+    (fun _ L => ∀ l ∈ L.dropLast, indent.length < l.length) ?_ ?_ ?_ s
+  · intro s _ l hl; split at hl <;> simp at hl
+  · intro s _ _ l hl; simp at hl
+  · intro s p _ hb ih l hl
+    obtain ⟨hip, hws, _, _⟩ := findBreak_some hb
+    have hplt := hws.lt
+    cases hL : iterLines width indent (indent ++ s.drop (p + 1)) with
+    | nil => rw [hL] at hl; simp at hl
+    | cons b r =>
+      rw [hL] at hl ih
+      simp only [List.dropLast_cons_cons, List.mem_cons] at hl
+      rcases hl with hl | hl
+      · subst hl; simp only [List.length_take]; omega
+      · exact ih l hl
+
 /-! ### rstrip -/
 
 /-- The returned string is the `"\n"`-join of the emitted lines; emitted line number `i` is
